@@ -99,7 +99,7 @@ Definition judge_c34 (v : value) (t : ety) : bool := has_ty v t.
 (** known classes of C34 (findings, known/C34.json), decided on the defining expression of a top-level binding:
     1  a `not e` inside: erg reports the operand's type for the negation ({True} for `not True`);
     2  a `.sum()` inside: erg reports the element type ({1, 2, 3} for [1, 2, 3].sum());
-    3  a list `+` with an operand built by push or by another `+` (not a plain list literal): erg reports the length
+    3  a list `+` with an operand built by push / insert / remove_at / repeat or by another `+` (not a plain list literal): erg reports the length
        2 * N and the element type of one operand only (the DESIGN.md example l.push(4) + [5] : List(.., 8));
     a binding defined from a binding (or by a call of a function) of a class inherits the class.  The classes are
     syntactic over-approximations: they are consulted only for a binding whose membership test failed. *)
@@ -119,11 +119,15 @@ Section TmExists.
     end.
 End TmExists.
 
-(* list-valued by its shape; derived = built by push or + (not a plain list literal) *)
+(* push and the other length-changing List methods the check generates (insert 50, remove_at 51, repeat 52: not in
+   the model's checker, only printed and judged) *)
+Definition list_method (m : Z) : bool := (m =? M_push) || (m =? 50) || (m =? 51) || (m =? 52).
+
+(* list-valued by its shape; derived = built by a list method or + (not a plain list literal) *)
 Fixpoint listish (Lv : list Z) (e : tm) : bool :=
   match e with
   | XList _ => true
-  | XMeth m _ _ => m =? M_push
+  | XMeth m _ _ => list_method m
   | XVar x => mem_z x Lv
   | XBin OAdd a b => listish Lv a || listish Lv b
   | _ => false
@@ -131,7 +135,7 @@ Fixpoint listish (Lv : list Z) (e : tm) : bool :=
 
 Definition derived (Lv Dv : list Z) (e : tm) : bool :=
   match e with
-  | XMeth m _ _ => m =? M_push
+  | XMeth m _ _ => list_method m
   | XVar x => mem_z x Dv
   | XBin OAdd a b => listish Lv a || listish Lv b
   | _ => false
